@@ -10,6 +10,7 @@ import (
 	"fmt"
 	"strings"
 	"sync"
+	"sync/atomic"
 	"time"
 
 	"verif/harness/kgen"
@@ -138,6 +139,10 @@ type World struct {
 	Seed   uint64
 	Realms map[string]*Realm
 	Now    func() time.Time
+	// TGSLimit > 0 makes every KDC answer a generic error once TGSCount exceeds it, so that a client that would
+	// follow referrals for ever returns and can be judged (the harness resets TGSCount per operation).
+	TGSLimit int64
+	TGSCount atomic.Int64
 }
 
 // NewWorld creates an empty world.
@@ -272,6 +277,10 @@ func (r *Realm) Handle(req []byte) []byte {
 	case 0x6a:
 		return r.handleAS(req)
 	case 0x6c:
+		if n := r.World.TGSCount.Add(1); r.World.TGSLimit > 0 && n > r.World.TGSLimit {
+			r.Seen = append(r.Seen, Seen{Kind: "TGS", Realm: r.Name, Raw: req, At: r.World.Now(), Problems: nil})
+			return r.KRBError(ErrGeneric, nil, "", nil, nil, true)
+		}
 		return r.handleTGS(req)
 	}
 	r.Seen = append(r.Seen, Seen{Kind: "?", Realm: r.Name, Raw: req, DecodeErr: "not an AS-REQ or TGS-REQ", At: r.World.Now()})
